@@ -29,11 +29,11 @@ Open Scope Z_scope.
    dotted (path ++ [i]), random values allowed by [rnd_may], absent only if the
    randomizer may answer None; children again conform, leaf types have none. *)
 Theorem C20_conforms : forall (Df : sdef) (rk : text -> nat) (typed : bool) (fuel : nat) (s : stream),
-  def_wf Df -> rank_ok Df rk -> (rk K_root < fuel)%nat -> mem K_root (d_rels Df) = true ->
+  def_wf Df -> counts_wf Df -> rank_ok Df rk -> (rk K_root < fuel)%nat -> mem K_root (d_rels Df) = true ->
   Conf Df K_root [] (snd (build_random_tree Df typed fuel s)).
 Proof.
-  intros Df rk typed fuel s Hwf Hrk Hf Hm.
-  exact (make_tree_conf Df Hwf rk Hrk fuel K_root [] s Hf Hm).
+  intros Df rk typed fuel s Hwf Hcw Hrk Hf Hm.
+  exact (make_tree_conf Df Hwf Hcw rk Hrk fuel K_root [] s Hf Hm).
 Qed.
 Print Assumptions C20_conforms.
 
@@ -41,17 +41,17 @@ Print Assumptions C20_conforms.
    constructors, [def_wf2]), a forest conforms if and only if SOME stream makes
    build_random_tree produce it – the specification [Conf] is neither weaker nor
    stronger than the code.  (Floats: canonical rationals, as the model produces them.) *)
-Theorem C20_exact : forall (Df : sdef) (rk : text -> nat), def_wf2 Df -> rank_ok Df rk ->
+Theorem C20_exact : forall (Df : sdef) (rk : text -> nat), def_wf2 Df -> counts_wf Df -> rank_ok Df rk ->
   forall fuel ptype path f, (rk ptype < fuel)%nat -> mem ptype (d_rels Df) = true ->
     (Conf Df ptype path f <-> exists s, fst (make_tree Df fuel ptype (dotted path) s) = f).
 Proof. exact conf_exact. Qed.
 Print Assumptions C20_exact.
 
 (* the same at any node type and any index path (prefix string = dotted path) *)
-Theorem C20_conforms_at : forall (Df : sdef) (rk : text -> nat), def_wf Df -> rank_ok Df rk ->
+Theorem C20_conforms_at : forall (Df : sdef) (rk : text -> nat), def_wf Df -> counts_wf Df -> rank_ok Df rk ->
   forall fuel ptype path s, (rk ptype < fuel)%nat -> mem ptype (d_rels Df) = true ->
   Conf Df ptype path (fst (make_tree Df fuel ptype (dotted path) s)).
-Proof. intros Df rk Hwf. exact (make_tree_conf Df Hwf rk). Qed.
+Proof. intros Df rk Hwf Hcw. exact (make_tree_conf Df Hwf Hcw rk). Qed.
 Print Assumptions C20_conforms_at.
 
 (* fuel sufficiency: above the rank the fuel does not matter (tree and rest stream) *)
@@ -66,7 +66,15 @@ Theorem C20_random_in_range : forall (r : rnd) (s : stream), rnd_wf r -> rnd_may
 Proof. exact gen_may. Qed.
 Print Assumptions C20_random_in_range.
 
-(* class = requested class, name = requested name; kind = type name in a TypedTree *)
+(* class = requested class, name = requested name; kind = type name in a TypedTree.
+   NOTE (audit): these are DEFINITIONAL in the model – [build_random_tree] returns the requested
+   class and name as its first components and a generated node has one field for type and kind –
+   so the proofs are [reflexivity].  They are statements about exactly the terms the correspondence
+   evaluates ([run20] prints [fst (fst (build_random_tree …))], [snd (fst …)] and, for every node,
+   [kind_of typed t]); that the implementation really passes kind=node_type / uses tree_class is
+   carried by the correspondence (class, name and every node's kind are observed) and by the
+   Python oracle (kind of every node = its relation's type; plain Node in a plain Tree), see the
+   sensitivity mutation "kind of the parent". *)
 Theorem C20_class_and_kind : forall Df typed fuel s (t : gt),
   fst (fst (build_random_tree Df typed fuel s)) = typed /\
   snd (fst (build_random_tree Df typed fuel s)) = d_name Df /\
@@ -259,16 +267,60 @@ Proof.
 Qed.
 Print Assumptions C20_terminates_for_every_definition_refuted.
 
+(* Text-/BlindTextRandomizer: fabulist is an ORACLE.  What the code guarantees, and what is stated:
+   the value is absent (skipped) or the answer of fabulist for exactly the declared arguments [arg]
+   (TextRandomizer: get_quote(template); BlindTextRandomizer: get_lorem_paragraph(sentence_count,
+   dialect, entropy, keep_first, words_per_sentence)) – modelled as the echo of the arguments followed
+   by ARBITRARY text; nothing is claimed about the words fabulist chooses.  Without fabulist the two
+   constructors raise RuntimeError (case CCtorNoFab of the correspondence). *)
+Theorem C20_text_randomizers : forall arg p s,
+  fst (gen (RText arg p) s) = VNone \/ exists t, fst (gen (RText arg p) s) = VStr (arg ++ t).
+Proof.
+  intros arg p s. destruct (gen_may (RText arg p) s Logic.I) as [[_ [t H]]|[_ H]].
+  - right. exists t. exact H.
+  - left. exact H.
+Qed.
+Print Assumptions C20_text_randomizers.
+
+(* a :count that is not an int/bool (after [or 0]: not None, 0.0, ""): range(count) raises TypeError
+   and nothing is returned.  Such definitions are OUTSIDE the conformance theorems (hypothesis
+   [counts_wf], decided per case by [in_domain]); the model reproduces the refusal: the relation's
+   group is the error trace and [run20] answers TypeError. *)
+Theorem C20_non_int_count_raises : forall Df rec prefix e s,
+  count_err (lookup K_count (mspec Df e)) s = true ->
+  fst (make_group Df rec prefix e s) = [err_node (fst e)] /\ raised (err_node (fst e)) = true.
+Proof. exact count_err_raises. Qed.
+Print Assumptions C20_non_int_count_raises.
+
+Example C20_non_int_count_example :
+  let d v := SD None [] [(K_root, [([97], [(K_count, SV v)])])] in
+  run20 (CBuild false (d (VFlt (mkQ 5 2))) 2 [] []) = L [A (-2); A 7] /\          (* 2.5: TypeError *)
+  run20 (CBuild false (d (VStr [Lit [120]])) 2 [] []) = L [A (-2); A 7] /\        (* "x": TypeError *)
+  in_domain (d (VFlt (mkQ 5 2))) 2 [] = false /\
+  (exists f b1 b2, run20 (CBuild false (d (VFlt (mkQ 0 1))) 2 [(K_root, 1)] []) =  (* 0.0: no children *)
+                   L [A 0; L []; L f; A b1; A b2] /\ f = []) /\
+  counts_wf (d (VInt 2)) /\ ~ counts_wf (d (VFlt (mkQ 5 2))).
+Proof.
+  cbv zeta. refine (conj eq_refl (conj eq_refl (conj eq_refl (conj _ (conj _ _))))).
+  - eexists _, _, _. vm_compute. split; reflexivity.
+  - apply counts_wfb_ok. reflexivity.
+  - intros H. specialize (H K_root _ ([97], [(K_count, SV (VFlt (mkQ 5 2)))]) eq_refl (or_introl eq_refl)).
+    vm_compute in H. discriminate H.
+Qed.
+
 (* the decidable domain checks evaluated by the correspondence on every case imply
    the hypotheses of C20_conforms *)
 Theorem C20_domain_checks : forall Df fuel rk, in_domain Df fuel rk = true ->
   let rkf := rk_of (map (fun p => (fst p, Z.to_nat (snd p))) rk) in
-  def_wf Df /\ def_wf2 Df /\ rank_ok Df rkf /\ (rkf K_root < Z.to_nat fuel)%nat /\ mem K_root (d_rels Df) = true.
+  def_wf Df /\ def_wf2 Df /\ counts_wf Df /\ rank_ok Df rkf /\ (rkf K_root < Z.to_nat fuel)%nat /\
+  mem K_root (d_rels Df) = true.
 Proof.
   intros Df fuel rk H. unfold in_domain in H.
   apply andb_true_iff in H. destruct H as [H H4]. apply andb_true_iff in H. destruct H as [H H3].
-  apply andb_true_iff in H. destruct H as [H1 H2]. apply def_wf2b_ok in H1.
-  refine (conj (def_wf2_wf _ H1) (conj H1 (conj (rank_okb_ok _ _ H2) (conj _ H4)))). apply Nat.ltb_lt. exact H3.
+  apply andb_true_iff in H. destruct H as [H H2]. apply andb_true_iff in H. destruct H as [H1 H5].
+  apply def_wf2b_ok in H1.
+  refine (conj (def_wf2_wf _ H1) (conj H1 (conj (counts_wfb_ok _ H5) (conj (rank_okb_ok _ _ H2) (conj _ H4))))).
+  apply Nat.ltb_lt. exact H3.
 Qed.
 Print Assumptions C20_domain_checks.
 
